@@ -60,6 +60,8 @@ def run(ctx):
             by_payload.setdefault(pt["s"], []).append(p)
     n_pairs = 0
     n_seqs = 0
+    nested_done = set()
+    paired = {wf.id for wf in writers if ls.writer_param_type(wf).get("k") == "adt" and len(by_payload.get(ls.writer_param_type(wf)["s"], [])) == 1}
     cap = 400 if tier == "quick" else 5000
     for wf in sorted(writers, key=lambda x: x.id):
         wpt = ls.writer_param_type(wf)
@@ -82,7 +84,21 @@ def run(ctx):
         chosen = wm.covering_subset(wf, 40) if tier == "quick" else seqs[:cap]
         rejected = None
         t0 = time.time()
+        work = []
         for toks in chosen:
+            work.append(toks)
+            # nested writers without a parser of their own (write_geom, write_property ...) are checked here, universally:
+            # every sequence such a writer can emit must be accepted in place (the plain run below only needs one of them)
+            for i, tk in enumerate(toks):
+                if tk[0] != "NT" or tk[1] in paired or i != [j for j, x in enumerate(toks) if x == tk][0]:
+                    continue
+                for alt in wm.paths(F.fns[tk[1]])[:80]:
+                    k3 = (pf.id, tk[1], alt)
+                    if k3 in nested_done:
+                        continue
+                    nested_done.add(k3)
+                    work.append(toks[:i] + tuple(alt) + toks[i + 1:])
+        for toks in work:
             n_seqs += 1
             sim.fail_note = None
             res = sim.run(pf, toks, 0)
